@@ -160,7 +160,13 @@ def detect_encoding(
 
     match = RE_META.search(RE_NO_ELEMENTS.sub('', body))
     if match is not None:
-        return match.group(1), match.group(2)
+        content_type = match.group(1)
+        # "text/xml" is how the XML declaration is reported: the media
+        # type of a meta element must not pass for that decision (a
+        # document behind a byte-order mark never gets here).
+        if content_type.strip().lower() == 'text/xml':
+            content_type = None
+        return content_type, match.group(2)
 
     return None, default_encoding
 
